@@ -115,14 +115,15 @@ def load_reserved():
 CHAIN_ADMIN = {"c1": "ca1", "c2": "ca2", "c3": "ca3", "c4": "ca4"}
 
 
-def reserved_probe(r, ops, tags):
+def reserved_probe(r, ops, tags, T=None, callers=None):
     """an operation reserved to a chain's own admin, about chain T, called with the same arguments by an outsider, by the admin
     of another chain, by a governance admin and finally by T's own admin; each call bracketed by dumps"""
     res = load_reserved()
     if not res:
         return
     c, m, ins, pos = r.choice(res)
-    T = r.choice(["c1", "c2", "c2", "c4", "c4", "c3"])
+    if T is None:
+        T = r.choice(["c1", "c2", "c2", "c4", "c4", "c3"])
     args = []
     for i, t in enumerate(ins):
         if i == pos - 1:
@@ -137,12 +138,48 @@ def reserved_probe(r, ops, tags):
                 return
             args.append(a)
     others = [a for ch, a in CHAIN_ADMIN.items() if ch != T]
-    callers = ["u0", r.choice(others), r.choice(others), "adm1", CHAIN_ADMIN[T]]
+    if callers is None:
+        callers = ["u0", r.choice(others), r.choice(others), "adm1", CHAIN_ADMIN[T]]
     for who in callers:
         ops.append("q dump")
         ops.append(f"block bvm {who} {c} {m} " + " ".join(args))
         ops.append("q dump")
     tags.add(f"reserved:{c}.{m}:{T}")
+
+
+HAPPY_RULE = "0x00000000000000000000000000000000000000a2"
+
+
+def rejected_applicant_probe(r, ops, tags):
+    """ownership that changes hands: an appchain id is applied for by one account and the application is rejected (or
+    withdrawn), then another account applies for the same id and is approved; operations reserved to that chain's own admin
+    are then called by an outsider, by the rejected applicant, by another chain's admin and by the owner"""
+    T = "c%d" % r.randint(5, 7)
+    first, second = r.sample(["ca5", "ca6", "ca7"], 2)
+    for who in (first, second):
+        ops.append(f"block xfer adm0 {who} 100000000000")
+
+    def apply(who, suffix):
+        return (f"block bvm {who} appchain RegisterAppchain s:{T} s:name-{T}-{suffix} x: s:ETH x: s:0xbroker s:desc s:{HAPPY_RULE} s:url s:@{who} s:reason")
+    ops.append(apply(first, "a"))
+    ops.append(f"q prop @{first}-0")
+    if r.random() < 0.25:
+        ops.append(f"block bvm {first} gov WithdrawProposal s:@{first}-0 s:reason")
+    else:
+        for v in ("adm0", "adm1", "adm2"):
+            ops.append(f"block bvm {v} gov Vote s:@{first}-0 s:reject s:r")
+    ops.append(f"q prop @{first}-0")
+    ops.append(f"q obj appchain {T}")
+    ops.append(apply(second, "b"))
+    ops.append(f"q prop @{second}-0")
+    for v in ("adm0", "adm1", "adm2"):
+        ops.append(f"block bvm {v} gov Vote s:@{second}-0 s:approve s:r")
+    ops.append(f"q prop @{second}-0")
+    ops.append(f"q obj appchain {T}")
+    tags.add(f"owner:{T}={second}")
+    tags.add("rejected-applicant-scenario")
+    for _ in range(r.choice([2, 3])):
+        reserved_probe(r, ops, tags, T=T, callers=["u0", first, r.choice(["ca1", "ca2"]), first, second])
 
 
 def gen_c17(rng, n, tier):
@@ -194,8 +231,11 @@ def gen_c17(rng, n, tier):
             ops.append("q dump")
             tags.add(f"call:{cls}")
             tags.add(f"m:{c}.{m}")
-        if r.random() < 0.5:
+        k1 = r.random()
+        if k1 < 0.5:
             reserved_probe(r, ops, tags)
+        elif k1 < 0.62:
+            rejected_applicant_probe(r, ops, tags)
         ops += ["q ic c1:s1", "q ic c2:s1", "q status 1356:c1:s1-1356:c2:s1-1", "q status 1356:c2:s1-1356:c1:s1-1"]
         hs.append(History(ops, tags=tags))
     return hs
@@ -227,6 +267,11 @@ def mon_c17(h, obs):
     steps = mon_exec.parse_trace(h, obs)
     reserved = {(c, m): pos for (c, m, _ins, pos) in load_reserved()}
     outsider_class = {}      # (contract, method, args) -> error class an outsider got for exactly this call
+    owners = dict(CHAIN_ADMIN)
+    for t in h.tags:
+        if t.startswith("owner:"):
+            ch, _, who = t[6:].partition("=")
+            owners[ch] = who
     for i, st in enumerate(steps):
         if st[0] != "block" or not st[1].ok:
             continue
@@ -267,10 +312,10 @@ def mon_c17(h, obs):
         if (c, m) in reserved and len(tx.args) >= reserved[(c, m)]:
             a = tx.args[reserved[(c, m)] - 1]
             chain = a[2:] if a.startswith("s:") else None
-            if chain in CHAIN_ADMIN and tx.signer != CHAIN_ADMIN[chain]:
+            if chain in owners and tx.signer != owners[chain]:
                 key = (c, m, tuple(tx.args))
                 if rc.ok:
-                    hits.append(Hit(f"C17/reserved-operation-open-to-others/{c}.{m}", f"{c}.{m} about chain {chain} called by {tx.signer} ({cls}) succeeded; it is reserved to {CHAIN_ADMIN[chain]}", detail=b.op))
+                    hits.append(Hit(f"C17/reserved-operation-open-to-others/{c}.{m}", f"{c}.{m} about chain {chain} called by {tx.signer} ({cls}) succeeded; it is reserved to {owners[chain]}", detail=b.op))
                 elif cls == "outsider":
                     outsider_class[key] = rc.ret
                 elif key in outsider_class and rc.ret != outsider_class[key]:
